@@ -31,7 +31,20 @@ def run_l2(run, cases, load_events, nprojects, oracle):
     rng = random.Random(run.seed)
     ok = [i for i, c in enumerate(cases) if c["abs"]["extra"] == "none" and load_events.get(i + 1, {}).get("load", {}).get("outcome") == "Ok"]
     # prefer assignments whose kinds differ between locales
-    chosen = ok if len(ok) <= nprojects else rng.sample(ok, nprojects)
+    if len(ok) <= nprojects:
+        chosen = ok
+    else:
+        # every value kind at least once in a non-default locale (with a different kind in the default), then a seeded sample
+        def kind_of(c, l):
+            return json.dumps(c["abs"]["P"]["vals"][l]["k"], sort_keys=True).replace('"%s"' % {"en": "e", "fr": "f", "de": "d"}[l], '"_"')
+        chosen, seen = [], set()
+        for i in ok:
+            kf = kind_of(cases[i], "fr")
+            if kf not in seen and kf != kind_of(cases[i], "en"):
+                seen.add(kf)
+                chosen.append(i)
+        rest = [i for i in ok if i not in set(chosen)]
+        chosen += rng.sample(rest, max(0, nprojects - len(chosen)))
     libs, metas = [], []
     for n, i in enumerate(chosen):
         c = cases[i]
